@@ -470,6 +470,45 @@ example :
     let c' := (c.writes [("a", 7, 5011)]).deleteKeys ks 11
     ks = ["a", "b"] ∧ c' "a" = some (7, 5011) ∧ c' "b" = none := by decide
 
+/-! ### no bound anywhere: volume -/
+
+/-- **other_accepts_preserve** — accepting any number of reports for OTHER work ids (any blocks)
+    leaves what the node knows about `w` untouched: there is no capacity after which a live record
+    is dropped -/
+theorem other_accepts_preserve (cfg : Cfg) (w : String) (us : List (String × Nat)) (hne : ∀ u ∈ us, u.1 ≠ w) :
+    ∀ (s : St), (us.foldl (fun s u => (accept cfg s u.1 u.2).1) s).cache w = s.cache w ∧
+      (us.foldl (fun s u => (accept cfg s u.1 u.2).1) s).now = s.now := by
+  induction us with
+  | nil => intro s; exact ⟨rfl, rfl⟩
+  | cons u us ih =>
+    intro s
+    have hu : ¬ w = u.1 := fun hc => hne u (List.mem_cons_self ..) hc.symm
+    obtain ⟨h1, h2⟩ := ih (fun v hv => hne v (List.mem_cons_of_mem _ hv)) (accept cfg s u.1 u.2).1
+    simp only [List.foldl_cons]
+    rw [h1, h2]
+    rcases accept_cases cfg s u.1 u.2 with ⟨_, hst, _⟩ | ⟨_, hst, _⟩
+    · rw [hst]; simp [cacheAfterAccept, hu]
+    · rw [hst]; exact ⟨rfl, rfl⟩
+
+/-- **unknown_events_skipped** — events for work ids without a live record change nothing, however
+    many of them stand in front of the relevant ones in a provider answer: the state after polling
+    `pad ++ evs` is the state after polling `evs` (no batch bound) -/
+theorem unknown_events_skipped (cfg : Cfg) (pad : List Event) :
+    ∀ (sys : Sys), (∀ e ∈ pad, sys.st.cache.get e.workID sys.st.now = none) →
+      (pad.foldl (stepEvent cfg) sys).st = sys.st := by
+  induction pad with
+  | nil => intro sys _; rfl
+  | cons e es ih =>
+    intro sys h
+    have hnone := h e (List.mem_cons_self ..)
+    have hst : (stepEvent cfg sys e).st = sys.st := by
+      rcases pollEvent_cases cfg sys.st e with ⟨_, hs⟩ | ⟨_, _, v, hget, _⟩ | ⟨_, _, v, hget, _⟩
+      · simp [stepEvent, hs]
+      · rw [hnone] at hget; cases hget
+      · rw [hnone] at hget; cases hget
+    simp only [List.foldl_cons]
+    rw [ih (stepEvent cfg sys e) (by rw [hst]; exact fun e' he' => h e' (List.mem_cons_of_mem _ he')), hst]
+
 /-! ### reads are read-only
 
 `Cache.get`, `shouldTransmit`, `shouldProcess`, `proposalAllowed` and the filters take a state and
